@@ -31,6 +31,19 @@ CHECKS["C24"] = ("exploration", "model-based monitor of endpoint selection (inde
     "Exhaustive over short endpoint lists from a policy x mode x level alphabet times all query forms, plus random longer lists with duplicates; the result must be a matching endpoint of maximal level, error iff nothing matches.",
     "lists without nil entries", "3/C24")
 
+CHECKS["C07"] = ("exploration", "in-process chunking round-trip monitor on the real sender and receiver code paths (detached channel instances)",
+    "Real newMessage/EncodeChunks/signAndEncrypt on one instance, real verifyAndDecrypt/mergeChunks/DecodeService on a mirrored one, for every policy and mode over generated chunk sizes, body lengths around multiples of the maximum and sequence numbers near the wrap; per-chunk invariants and byte-equal reassembly.",
+    "uses the verif hook wrappers (EncodeAndSecure repeats the writeMessageChunks loop without the socket); RSA key sizes are exercised by the OPN part of C08 and by C37", "3/C07")
+CHECKS["C08"] = ("exploration", "differential monitor against an independent implementation of the Part 6 chunk layout (refpeer)",
+    "Chunks secured by gopcua must open in refpeer to the same plaintext and chunks sealed by refpeer in every conforming variation must open in gopcua, for MSG under all policies/modes and OPN under every allowed RSA key size pair, both directions.",
+    "refpeer written from the specification; shares only Go crypto stdlib with gopcua", "3/C08")
+CHECKS["C09"] = ("exploration", "tamper monitor: exhaustive single-byte, truncation, extension and wrong-key mutations of valid chunks against the real verifyAndDecrypt",
+    "Every mutated chunk must be rejected without panic; valid chunk as control.",
+    "delivery observed at verifyAndDecrypt of a detached instance (hook); server-side effect covered by C10/C29 workloads", "3/C09")
+CHECKS["C38"] = ("exploration", "dense chunk-size sweep monitor of SetMaximumBodySize against the real encoder and independent layout arithmetic",
+    "Every chunk size in a dense range from the protocol minimum plus log-spaced/random sizes to 2^24, all symmetric policies and modes: the maximal body fits, is block aligned, matches the layout arithmetic, and max+1 does not fit in SignAndEncrypt.",
+    "chunk sizes above the dense range are sampled", "3/C38")
+
 NOT_YET = {}
 
 
